@@ -25,5 +25,10 @@ pub mod program;
 pub mod span;
 pub mod token;
 
+#[cfg(feature = "verif")]
+pub mod verif {
+    pub use crate::gc::verif as gc;
+}
+
 type FHashMap<K, V> = std::collections::HashMap<K, V, foldhash::fast::RandomState>;
 type FHashSet<T> = std::collections::HashSet<T, foldhash::fast::RandomState>;
